@@ -310,6 +310,18 @@ def merge_instance(ctx, crmod):
         return out, dict(I2.sdm_decisions)
     in_cell = [z3.And(UP[i][c] >= 0, UP[i][c] < 1) for i in range(4) for c in range(3)]
 
+    def special_replay(m=None):
+        import chmpy.crystal.space_group as sgm
+        rng = np.random.default_rng(21)
+        for number, choice in ((2, ""), (12, "b1"), (136, ""), (221, ""), (225, ""), (194, "")):
+            try:
+                f, n = check_setting(sgm, number, choice, rng)
+            except Exception as e:  # noqa
+                f = {"input": {"setting": f"{number}:{choice}"}, "observed": repr(e)[:200]}
+            if f:
+                return {"native_inputs": f["input"], "reproduced": True, "observed": f["observed"]}
+        return {"native_inputs": "special and general positions in settings 2, 12, 136, 221, 225, 194", "reproduced": False, "observed": "exact orbit reproduced"}
+
     def ob():
         co = lambda a_, b_: COIN[(min(a_, b_), max(a_, b_))]
         transitive = [z3.Implies(z3.And(co(a_, b_), co(b_, c_)), co(a_, c_)) for a_ in range(4) for b_ in range(4) for c_ in range(4) if len({a_, b_, c_}) == 3]
@@ -360,7 +372,7 @@ def merge_instance(ctx, crmod):
             ctx.prove(f"crystal.Crystal.unit_cell_atoms/ensures/merge_instance/path{k}", r.pc, conj(goals),
                       clause="2 sites x 2 operations, any coincidence pattern that is an equivalence relation: survivors are the least row of each class, every returned array is "
                              "filtered by the same rows, merged occupancy is the class sum, element/label/parent/generator are the survivor's, Cartesian = fractional . D",
-                      fn=f_uca, replay=None)
+                      fn=f_uca, replay=special_replay)
         if n_ok == 0:
             ctx.undecided("crystal.Crystal.unit_cell_atoms/ensures/merge_instance", "no path with an equivalence coincidence relation")
     ctx.attempt("crystal.Crystal.unit_cell_atoms/ensures/merge_instance", ob)
